@@ -112,7 +112,12 @@ pub fn openssl_csrs_with_keys(rng: &mut Rng, n: usize) -> Vec<(Base, PKey<Privat
 		let mut what = Vec::new();
 		if rng.chance(2, 3) {
 			let mut s = SubjectAlternativeName::new();
-			s.dns(&gen_host(rng));
+			if rng.chance(1, 6) {
+				// valid UTF-8 but not IA5: OpenSSL writes it unchecked
+				s.dns(&format!("m\u{fc}nchen.{}", gen_host(rng)));
+			} else {
+				s.dns(&gen_host(rng));
+			}
 			if rng.chance(1, 2) {
 				s.ip("192.0.2.7");
 			}
@@ -228,6 +233,16 @@ pub fn rcgen_csrs(rng: &mut Rng, pool: &[PoolKey], n: usize) -> Vec<Base> {
 			},
 		);
 		spec.nc = None;
+		if !spec.sans.is_empty() && rng.chance(1, 5) {
+			// a second subjectAltName extension inside the same extensionRequest (as a caller-supplied
+			// extension): the request asks for the names of both
+			let h = format!("second.{}", gen_host(rng));
+			let mut gn = vec![0x82, h.len() as u8];
+			gn.extend_from_slice(h.as_bytes());
+			let mut content = vec![0x30, gn.len() as u8];
+			content.extend(gn);
+			spec.custom.push(CustomExtSpec { oid: x509::OID_SAN.to_vec(), critical: false, content });
+		}
 		if let Ok(Ok(csr)) = crate::guard(|| spec.to_rcgen(None).serialize_request(&k.kp)) {
 			out.push(Base {
 				label: format!("rcgen:{}:ku={} san={} eku={} custom={}", k.label, spec.ku != 0, spec.sans.len(), spec.ekus.len(), spec.custom.len()),
@@ -302,8 +317,10 @@ fn view(der: &[u8]) -> Result<ReqView, String> {
 /// signature algorithm named by an AlgorithmIdentifier element, whatever its own tag byte says
 fn sigalg_lenient(alg_tlv: &[u8]) -> Option<SigAlg> {
 	let (t, _) = derx::parse_one(alg_tlv, false).ok()?;
-	let k = derx::parse_all(t.content, false).ok()?;
-	let oid = derx::decode_oid(k.first()?.content).ok()?;
+	// only the leading OID identifies the algorithm; whatever follows it inside the (unsigned) outer
+	// AlgorithmIdentifier may be garbage that the parser under test does not look at either
+	let (first, _) = derx::parse_one(t.content, false).ok()?;
+	let oid = derx::decode_oid(first.content).ok()?;
 	[
 		SigAlg::RsaSha256,
 		SigAlg::RsaSha384,
